@@ -242,5 +242,9 @@ func checkC37(w *World, r *Run) {
 			r.Check(assigned[of], ruleOpts, "adapter."+m.method+" sets "+optsName+"."+of, ad.Pos(), "assigned", optsName+"."+of+" is never assigned by the adapter")
 		}
 	}
+	{
+		rule := r.Rule("adapter-options-built-whenever-a-value-exists", "F1", "the upload adapter leaves the storage options nil only on paths that established tags, metadata and storage class to be absent", 3)
+		checkOptionsGuard(w, r, rule, relMigrator)
+	}
 	r.NotCovered("byte-for-byte content equality; Expires values that do not parse as HTTP dates (dropped by parseExpires); versions, delete markers and pending uploads of the source (only current objects are migrated by design)")
 }
